@@ -509,7 +509,34 @@ class Evaluator:
                     raise Raised("TypeError")
             raise AnalysisError("subscript not supported (%s)" % f.loc(e))
         if isinstance(e, ast.JoinedStr):
-            return Opaque("fstring")
+            # f"a{x}b{y!s}": the concatenation of the pieces; a concrete piece is formatted as Python would, an abstract string
+            # piece stays a piece of the concatenation (as for `"a" + x + "b"`)
+            acc = ""
+            for part in e.values:
+                if isinstance(part, ast.Constant):
+                    piece = str(part.value)
+                else:
+                    v = self.expr(part.value, env, f, depth)
+                    spec = self.expr(part.format_spec, env, f, depth) if part.format_spec is not None else ""
+                    if isinstance(v, (str, int, float, bool)) or v is None:
+                        if not isinstance(spec, str):
+                            return Opaque("fstring")
+                        conv = {115: str, 114: repr, 97: ascii}.get(part.conversion)
+                        piece = format(conv(v) if conv else v, spec)
+                    elif isinstance(v, (Cat, Sym, Distinct)) and spec == "" and part.conversion in (-1, 115):
+                        piece = v
+                    else:
+                        return Opaque("fstring")
+                acc = self.binop(ast.Add(), acc, piece, e) if acc != "" else piece
+                if isinstance(acc, Opaque):
+                    return acc
+            return acc
+        if isinstance(e, ast.YieldFrom):
+            v = self.expr(e.value, env, f, depth)
+            if isinstance(v, (list, tuple)):
+                self._yields[-1].extend(v)
+                return None
+            raise AnalysisError("yield from an abstract iterable not supported by the table extractor (%s)" % f.loc(e))
         if isinstance(e, ast.Call):
             return self.callexpr(e, env, f, depth)
         if isinstance(e, ast.Dict):
@@ -636,6 +663,12 @@ class Evaluator:
             return a // b
         if isinstance(op, ast.Mult) and isinstance(a, str) and type(b) is int or isinstance(b, str) and type(a) is int:
             return a * b
+        if isinstance(op, ast.Mod) and isinstance(a, str) and (isinstance(b, (str, int, float)) or isinstance(b, tuple)
+                                                               and all(isinstance(x, (str, int, float)) for x in b)):
+            try:
+                return a % b
+            except (TypeError, ValueError) as ex_:
+                raise Raised(type(ex_).__name__)
         return Opaque("arith")
 
     def callexpr(self, e, env, f, depth):
@@ -893,14 +926,26 @@ class Evaluator:
                 if isinstance(fn, ast.Attribute) and isinstance(fn.value, ast.Name) and fn.value.id == "self":
                     env.update(selfenv)        # the callee ran on the same object
         if isinstance(fn, ast.Attribute) and fn.attr in ("find", "rfind", "replace", "split", "strip", "rstrip", "lstrip", "lower", "upper",
-                                                         "count", "index", "isnumeric", "isdigit") \
-                and all(isinstance(a, (str, int)) for a in args) and not kws:
+                                                         "count", "index", "isnumeric", "isdigit", "isdecimal", "isalpha", "isalnum",
+                                                         "isspace", "isupper", "islower", "title", "capitalize", "zfill", "rjust", "ljust",
+                                                         "center", "partition", "rpartition", "rsplit", "splitlines", "removeprefix",
+                                                         "removesuffix", "casefold", "swapcase", "format", "startswith", "endswith") \
+                and all(isinstance(a, (str, int, float, bool)) or a is None or (isinstance(a, tuple) and all(isinstance(x, str) for x in a))
+                        for a in list(args) + list(kws.values())) and (not kws or fn.attr == "format"):
             try:
                 base = self.expr(fn.value, env, f, depth)
             except AnalysisError:
                 base = None
             if isinstance(base, str):
-                return getattr(base, fn.attr)(*args)      # builtin string operation on constants
+                try:
+                    out_ = getattr(base, fn.attr)(*args, **kws)      # builtin string operation on constants
+                except ValueError:
+                    raise Raised("ValueError")
+                except (IndexError, KeyError) as ex_:
+                    raise Raised(type(ex_).__name__)
+                except TypeError:
+                    raise Raised("TypeError")
+                return list(out_) if fn.attr in ("partition", "rpartition") and False else out_
         if isinstance(fn, ast.Attribute) and fn.attr == "finditer" and args and all(isinstance(a, (str, int)) for a in args) and not kws:
             try:
                 rx = self.expr(fn.value, env, f, depth)
@@ -944,7 +989,53 @@ class Evaluator:
                 import re as _re
                 m = getattr(_re.compile(rx[1]), fn.attr)(*args)
                 return None if m is None else {"start()": m.start(), "end()": m.end(), "group()": m.group()}
-        if isinstance(fn, ast.Attribute) and fn.attr in ("format", "join", "upper", "lower", "strip"):
+        if isinstance(fn, ast.Attribute) and fn.attr == "format":
+            # "a{}b{name}".format(x, name=y) with abstract string arguments: the concatenation of the pieces
+            try:
+                tmpl = self.expr(fn.value, env, f, depth)
+            except AnalysisError:
+                tmpl = None
+            if isinstance(tmpl, str):
+                import string as _string
+                acc, auto, good = "", 0, True
+                try:
+                    fields = list(_string.Formatter().parse(tmpl))
+                except ValueError:
+                    fields, good = [], False
+                for lit_, name_, spec_, conv_ in fields:
+                    if lit_:
+                        acc = self.binop(ast.Add(), acc, lit_, e) if acc != "" else lit_
+                    if name_ is None:
+                        continue
+                    if name_ == "":
+                        key_, auto = auto, auto + 1
+                    elif name_.isdigit():
+                        key_ = int(name_)
+                    else:
+                        key_ = name_
+                    if isinstance(key_, int) and key_ < len(args):
+                        v = args[key_]
+                    elif isinstance(key_, str) and key_ in kws:
+                        v = kws[key_]
+                    else:
+                        good = False
+                        break
+                    if spec_ or conv_ not in (None, "s"):
+                        if isinstance(v, (str, int, float, bool)) or v is None:
+                            v = format({"r": repr, "a": ascii}.get(conv_, lambda z: z)(v), spec_ or "")
+                        else:
+                            good = False
+                            break
+                    elif isinstance(v, (int, float, bool)) or v is None:
+                        v = str(v)
+                    elif not isinstance(v, (str, Cat, Sym, Distinct)):
+                        good = False
+                        break
+                    acc = self.binop(ast.Add(), acc, v, e) if acc != "" else (Cat([v]) if isinstance(v, (Sym, Distinct)) else v)
+                if good and not isinstance(acc, Opaque):
+                    return acc
+            return Opaque("str")
+        if isinstance(fn, ast.Attribute) and fn.attr in ("join", "upper", "lower", "strip"):
             return Opaque("str")
         if isinstance(fn, ast.Attribute) and fn.attr in ("startswith", "endswith") and args:
             base = self.expr(fn.value, env, f, depth)
